@@ -283,6 +283,9 @@ def run(cx):
     inst_time_units(cx, "C10.l")
     from props.C14 import inst_rate_floor
     inst_rate_floor(cx, "C10.m")
+    # keepalives and their replies need credit: the refill must count the whole time since the last step
+    from props.C13 import inst_credit_refill
+    inst_credit_refill(cx, "C10.n")
 
 
 SELFTEST = [
